@@ -414,3 +414,7 @@ mod tests {
         )
     }
 }
+
+#[cfg(kani)]
+#[path = "/verif/kani/arrow-ord/partition.rs"]
+mod verif_kani;
